@@ -99,7 +99,7 @@ func (mailbox *BoundedMailbox) Dequeue() (msg *ReceiveContext) {
 // IsEmpty reports whether the mailbox currently has no messages.
 // This check is a snapshot and may change immediately under concurrency.
 func (mailbox *BoundedMailbox) IsEmpty() bool {
-	return mailbox.underlying.Len() == 0
+	return mailbox.underlying.IsDisposed() || mailbox.underlying.Len() == 0
 }
 
 // Len returns the current number of messages in the mailbox.
